@@ -110,6 +110,11 @@ def run_cf(cases):
                 x = x / k
                 y = y / k
             r["k"] = k
+            if c.get("dtype"):
+                # coordinate variables stored in a narrower dtype (most real CF files use float32, some integers)
+                xs_, ys_ = x.astype(c["dtype"]), y.astype(c["dtype"])
+                r["cast_exact"] = bool(np.array_equal(xs_.astype(np.float64), x) and np.array_equal(ys_.astype(np.float64), y))
+                x, y = xs_, ys_
             if c.get("drop_wkt"):
                 cf = {key: v for key, v in cf.items() if key != "crs_wkt"}
             ydim, xdim = c["dims"]
